@@ -72,7 +72,8 @@ TRANSLATORS = [
                                 "-report", os.path.join(BUILD, "sharedgen_report.json")]),
     ("readeruse", "readeruse", ["-repo", REPO, "-out", os.path.join(COQ, "Gen")]),
     ("posmsggen", "posmsggen", ["-repo", REPO, "-out", os.path.join(COQ, "Gen")]),
-    ("posreadgen", "posreadgen", ["-repo", REPO, "-out", os.path.join(COQ, "Gen"), "-report", os.path.join(BUILD, "posreadgen_report.json")]),
+    ("posreadgen", "posreadgen", ["-repo", REPO, "-out", os.path.join(COQ, "Gen", "PosReads.v"), "-allow-out", os.path.join(COQ, "Gen", "PosReadsAllowed.v"),
+                                  "-allow", os.path.join(ROOT, "checks", "c05_allowed_sites.json"), "-report", os.path.join(BUILD, "posreadgen_report.json")]),
     ("nilgen", "nilgen", ["-repo", REPO, "-out", os.path.join(COQ, "Gen"), "-report", os.path.join(BUILD, "nilgen_report.json")]),
     ("depthgen", "depthgen", ["-repo", REPO, "-out", os.path.join(COQ, "Gen"), "-report", os.path.join(BUILD, "depthgen_report.json")]),
     ("skelgen", "skelgen", ["-repo", REPO, "-out", os.path.join(COQ, "Gen"),
@@ -272,6 +273,7 @@ def forbidden_scan(rel_files):
     for rel in dep_closure(rel_files):
         src = open(os.path.join(COQ, rel)).read()
         src = re.sub(r"\(\*.*?\*\)", "", src, flags=re.S)
+        src = re.sub(r'"(?:[^"]|"")*"', '""', src)      # string literals (generated inventories quote Go source text)
         for m in FORBIDDEN_RE.finditer(src):
             hits.append("%s: %s" % (rel, m.group(0)))
     return hits
